@@ -99,7 +99,10 @@ def _mc_cfg(tops, top_leaves, inner_leaves, inner_cons, depth, cap_in, cap_out):
 # ----------------------------------------------------------------------------------------
 
 ENUM_MS = [{"n": "ZERO", "v": 0}, {"n": "ONE", "v": 1}, {"n": "MID", "v": 258}, {"n": "TOP", "v": 255}]
-FLAG_MS = [{"n": "A", "v": 1}, {"n": "B", "v": 2}, {"n": "C", "v": 4}, {"n": "H", "v": 128}]
+# flag class of the decorated flavour: zero member, second name for a bit, a multi-bit mask covering an otherwise
+# un-named bit (8), gaps (16, 32, 64)
+FLAG_MS = [{"n": "NONE", "v": 0}, {"n": "A", "v": 1}, {"n": "A_AGAIN", "v": 1}, {"n": "B", "v": 2}, {"n": "C", "v": 4},
+           {"n": "LOW", "v": 15}, {"n": "H", "v": 128}]
 
 
 def _ctx_free(t):
@@ -1053,13 +1056,189 @@ def _traces(chk: Check, n_cases, max_depth, per_trace=12, shards=8):
     chk.sample({"binding": "B2 case (code->spec)", "event": common._clip(events[len(events) // 3], 30)})
 
 
+# ----------------------------------------------------------------------------------------
+# instances have no history: every sequence of size queries / writes / reads on one instance
+# ----------------------------------------------------------------------------------------
+
+def _histories(chk: Check, depth):
+    cfg = os.path.join(chk.scratch, "inst-%d.cfg" % depth)
+    with open(cfg, "w") as f:
+        f.write("SPECIFICATION Spec\nCONSTANT Depth = %d\nINVARIANT Pure\n" % depth)
+    res = run_tlc(os.path.join(SPECS, "Combinators_Inst.tla"), cfg, workers=1, scratch=chk.scratch, heap="1g", jvm=JVM)
+    chk.require_model_ok(res, "Combinators_Inst depth %d" % depth)
+    hs = [tuple(r["hist"]) for r in res.printed() if isinstance(r, dict) and "hist" in r]
+    hs = sorted(set(h for h in hs if h), key=lambda h: (len(h), h))
+    if len(hs) != sum(4 ** k for k in range(1, depth + 1)):
+        raise common.MachineryError("Combinators_Inst printed %d histories for depth %d" % (len(hs), depth))
+    return hs
+
+
+_HIST = {}
+
+
+def replay_histories(rec):
+    """All histories on fresh real instances of one tree; answers compared with the tree's table."""
+    reflect, se = _reflect(), _se()
+    base = rec["t"]
+    ok_rows = [r for r in rec["rows"] if r["st"] == "ok"]
+    lens = sorted({len(r["b"]) for r in ok_rows})
+    row = ok_rows[0] if ok_rows else None
+    viols = []
+    n_eval = 0
+    variants = [(base, "plain", _HIST["deep"])]
+    deco = decorate(base)
+    if deco != base:
+        variants.append((deco, "decorated", _HIST["shallow"]))
+    for vt, flavour, hists in variants:
+        feat = {"top": base["k"], "flavour": flavour, "kinds": sorted(_kinds(base))}
+        try:
+            pv = reflect.to_py(vt, row["v"], False) if row else None
+        except reflect.Unreflectable:
+            pv = row = None
+        for h in hists:
+            _DC_RESET(reflect)
+            st, spec = impl_call(reflect.build, vt)
+            if st != "ok":
+                break
+            parts = reflect.subspecs(spec)
+            answers = {}       # object id -> list of answers
+            bad = None
+            for step, a in enumerate(h):
+                n_eval += 1
+                if a in ("Q", "QI"):
+                    for obj in ([spec] if a == "Q" else parts):
+                        size, exc = _calc_size(obj)
+                        answers.setdefault(id(obj), []).append(size)
+                        if size == -2 and a == "Q":
+                            bad = ("calc_size() raised", {"kind": "calc_size-raises", "exc": str(exc).split(":")[0], **_failing_size_node(vt)})
+                        elif size < -1 and a == "Q":
+                            bad = ("calc_size() returned neither a size nor None", {"kind": "calc_size-type", **feat})
+                        elif a == "Q" and size >= 0 and any(n != size for n in lens):
+                            bad = ("calc_size() differs from the size of an encoding", {"kind": "calc_size-wrong", **feat})
+                        if len(set(answers[id(obj)])) > 1:
+                            bad = ("calc_size() is not a function of the spec: it answered differently later on the same instance",
+                                   {"kind": "calc_size-unstable", "queried": "instance" if obj is spec else "nested spec", **feat})
+                elif row is not None and a == "W":
+                    w = se.BufferWriter(">")
+                    st, exc = impl_call(w.write, spec, pv)
+                    if st != "ok" or w.copy_buffer() != bytes(row["b"]):
+                        bad = ("written bytes depend on what was done to the instance before", {"kind": "write-history", **feat})
+                elif row is not None and a == "R":
+                    r = se.BufferReader(">", bytes(row["b"]), pod=False)
+                    st, val = impl_call(r.read, spec)
+                    cst, cval = _canon_call(reflect, val, vt, False) if st == "ok" else ("raise", val)
+                    if st != "ok" or cst != "ok" or cval != row["v"] or len(r):
+                        bad = ("read value depends on what was done to the instance before", {"kind": "read-history", **feat})
+                if bad:
+                    viols.append((bad[0], dict(bad[1], history=list(h[:step + 1])),
+                                  {"tree": vt, "history": list(h), "failed_at_step": step, "size_answers": list(answers.values()),
+                                   "encoding_lengths": lens, "spec_size": rec["size"]}))
+                    break
+            if len(viols) >= 6:
+                return n_eval, viols
+    return n_eval, viols
+
+
+def _DC_RESET(reflect):
+    """Dataclass types are cached per tree by the bridge; their field specs would carry history from one replay to
+    the next, so a fresh instance means fresh dataclass types too."""
+    reflect._DC_CACHE.clear()
+
+
+def _hist_chunk(recs):
+    _limit_worker_memory()
+    n = 0
+    out = []
+    for r in recs:
+        a, v = replay_histories(r)
+        n += a
+        out += v
+    return n, out[:40]
+
+
+def _instances(chk: Check, label, recs, deep, shallow):
+    """B1 on the stateless instance machine: every history up to `deep` steps on a fresh plain instance of every tree
+    (and up to `shallow` steps on its decorated flavour)."""
+    _HIST["deep"] = _histories(chk, deep)
+    _HIST["shallow"] = [h for h in _HIST["deep"] if len(h) <= shallow]
+    done = common.parallel_map(_hist_chunk, common.chunked(recs, common.NCPU * 4))
+    chk.count(sum(d[0] for d in done))
+    n_hist = len(recs) * len(_HIST["deep"])
+    chk.cov["traces_validated_against_impl"] += n_hist
+    chk.cov.setdefault("instance_histories", []).append({"label": label, "trees": len(recs), "histories_per_tree": len(_HIST["deep"]),
+                                                         "depth": deep, "decorated_depth": shallow})
+    for d in done:
+        for what, feat, detail in d[1]:
+            chk.violation("B1 %s: %s" % (label, what), feat, detail)
+    chk.sample({"binding": "B1 instance history (spec->code)", "history": list(_HIST["deep"][len(_HIST["deep"]) // 2]),
+                "tree": recs[len(recs) // 3]["t"]})
+
+
+# ----------------------------------------------------------------------------------------
+# flag words: constructed flag classes x every byte x both reader modes
+# ----------------------------------------------------------------------------------------
+
+def _flags(chk: Check):
+    reflect, se = _reflect(), _se()
+    cfg = ("SPECIFICATION Spec\nINVARIANT PodDeterminesWord\nINVARIANT LeftIsUnnamed\nINVARIANT NamesCanonical\n")
+    res = common.model_check(chk, "Combinators_Flags", cfg, "Combinators_Flags", workers=1, heap="2g")
+    rows = [r for r in res.printed() if isinstance(r, dict) and "flagrow" in r]
+    if len(rows) < 256 or len(rows) % 256:
+        raise common.MachineryError("Combinators_Flags printed %d rows" % len(rows))
+    U8T = {"k": "int", "w": 1, "s": False}
+    for r in rows:
+        chk.count(8)
+        tree = {"k": "adapter", "name": "IntFlag", "ms": r["ms"], "c": U8T}
+        spec = reflect.build(tree)
+        cls = spec.flag_cls
+        n = r["word"]
+        pod_form = tuple(r["names"]) + ((r["left"],) if r["left"] else ())
+        canon_members = [m["n"] for m in r["ms"]]
+        feat = {"class": canon_members, "word": n}
+        detail = {"members": r["ms"], "word": n, "spec_plain_data_form": list(pod_form)}
+
+        def wr(v):
+            w = se.BufferWriter("<")
+            st, exc = impl_call(w.write, spec, v)
+            return (st, list(w.copy_buffer())) if st == "ok" else (st, exc)
+
+        def rd(pod):
+            rdr = se.BufferReader("<", bytes([n]), pod=pod)
+            return impl_call(rdr.read, spec)
+        # bytes -> value, per mode
+        st, pv = rd(True)
+        if st != "ok" or pv != pod_form or type(pv) is not tuple:
+            chk.violation("B3 flags: plain-data form of a flag word differs from FlagPod", {"kind": "flag-pod-form", **feat},
+                          {**detail, "impl": repr((st, pv))})
+        st2, rv = rd(False)
+        if st2 != "ok" or not isinstance(rv, cls) or int(rv) != n:
+            chk.violation("B3 flags: rich form of a flag word is not the word", {"kind": "flag-rich-form", **feat},
+                          {**detail, "impl": repr((st2, rv))})
+        # value -> bytes (spec's forms), and bytes -> value -> bytes (what the reader returned)
+        for what, v in (("spec plain-data form", pod_form), ("integer", n), ("rich", cls(n)),
+                        ("plain-data form as read", pv if st == "ok" else None), ("rich form as read", rv if st2 == "ok" else None)):
+            if v is None:
+                continue
+            got = wr(v)
+            if got != ("ok", [n]):
+                chk.violation("B3 flags: writing back a flag word changes it", {"kind": "flag-write", "form": what, **feat},
+                              {**detail, "written_value": repr(v), "impl": repr(got)})
+        if r["left"] or r["names"]:
+            chk.nontrivial(("flag", r["flagrow"], n))
+    chk.cov["traces_validated_against_impl"] += len(rows)
+    chk.cov["flag_rows"] = len(rows)
+    chk.sample({"binding": "B3 flag row (spec->code)", "row": rows[len(rows) // 2 + 17]})
+
+
 def _split(xs, n):
     n = max(1, min(n, len(xs)))
     return [xs[i::n] for i in range(n)]
 
 
 def run(chk: Check):
-    chk.cov["rule"] = ("spec->code: every tree of the bounded grammar x every candidate value (domain, boundary and just-outside-limit "
+    chk.cov["rule"] = ("instances: every history of size queries / writes / reads (TLC-enumerated, depth 2-4) on a fresh real instance "
+                       "of every table tree; flag words: 6 constructed flag classes x 256 bytes x both modes. "
+                       "spec->code: every tree of the bounded grammar x every candidate value (domain, boundary and just-outside-limit "
                        "values) x both byte orders x rich/plain-data input x 4 trailing byte strings, replayed into real combinators in "
                        "two flavours (plain; dataclass/lazy/enum/flag decorated); non-trivial = trees with at least one domain value. "
                        "code->spec: random deeper trees, TLC recomputes Enc/Dec/Size; non-trivial = cases TLC accepts as domain values.")
@@ -1073,20 +1252,26 @@ def run(chk: Check):
         "reflection bridge harness/reflect.py (to_tree/build/canon/to_py) is trusted; it is self-checked by to_tree(build(t)) == t",
     ]
     kernel = ["U8", "U16", "BA8", "BG", "CS", "STR8", "Null", "BF2"]
-    _tables(chk, "depth<=1", [["leaf"]] + _split(ALL_CONS, 7), ALL_LEAVES, ["U8"], ["CollP"], 1, 4, 8)
-    _tables(chk, "ill-formed", [MISUSE_CONS], ["U8", "S8", "F32", "BG", "Null", "BA32", "STR8"], ["U8"], ["CollP"], 1, 4, 8,
-            vacuous_ok=True)
-    _tables(chk, "context", _split(CTX_CONS, 4), ["U8", "U16", "S8", "UUID", "BA8", "CS", "BG", "Null", "BIT8"], ["U8"], ["CollP"],
-            1, 4, 10)
+    r1 = _tables(chk, "depth<=1", [["leaf"]] + _split(ALL_CONS, 7), ALL_LEAVES, ["U8"], ["CollP"], 1, 4, 8)
+    r2 = _tables(chk, "ill-formed", [MISUSE_CONS], ["U8", "S8", "F32", "BG", "Null", "BA32", "STR8"], ["U8"], ["CollP"], 1, 4, 8,
+                 vacuous_ok=True)
+    r3 = _tables(chk, "context", _split(CTX_CONS, 4), ["U8", "U16", "S8", "UUID", "BA8", "CS", "BG", "Null", "BIT8"], ["U8"], ["CollP"],
+                 1, 4, 10)
+    _flags(chk)
     if chk.tier == "quick":
-        _tables(chk, "depth2-kernel", _split(ALL_CONS, 8), ["U8"], kernel, ALL_CONS, 2, 3, 6)
+        r4 = _tables(chk, "depth2-kernel", _split(ALL_CONS, 8), ["U8"], kernel, ALL_CONS, 2, 3, 6)
+        _instances(chk, "depth<=1", r1 + r2 + r3, 3, 2)
+        _instances(chk, "depth2-kernel", r4, 2, 1)
         _traces(chk, 1600, 4)
     else:
-        _tables(chk, "depth2", _split(ALL_CONS, 13), ["U8"], ALL_LEAVES, ALL_CONS, 2, 3, 6)
+        r4 = _tables(chk, "depth2", _split(ALL_CONS, 13), ["U8"], ALL_LEAVES, ALL_CONS, 2, 3, 6)
         small = ["U8", "U16", "BG", "CS", "Null", "BA8"]
         cons3 = ["CollP", "CollG", "CollF", "OptP", "IfP", "TBP", "TBGe", "TBTe", "TBF", "LenSw", "EnumSw", "FlagSw", "TupA",
                  "TmplFlag", "TmplSkip", "TmplCtx"]
-        _tables(chk, "depth3-kernel", _split(ALL_CONS, 13), ["U8"], small, cons3, 3, 3, 5)
+        r5 = _tables(chk, "depth3-kernel", _split(ALL_CONS, 13), ["U8"], small, cons3, 3, 3, 5)
+        _instances(chk, "depth<=1", r1 + r2 + r3, 4, 3)
+        _instances(chk, "depth2", r4, 3, 2)
+        _instances(chk, "depth3-kernel", r5, 2, 1)
         _traces(chk, 60000, 4, shards=16)
         _traces(chk, 15000, 5, shards=16)
         _traces(chk, 5000, 6, shards=16)
